@@ -45,20 +45,28 @@ TRUSTED = ["numpy float32/float64 arithmetic is exact on the small-integer/dyadi
            "independent float64 quaternion (Horn) optimum used by the oracle as RMSD reference",
            "unittest-style patching of module globals (np.linalg.svd table, inner superimpose stub) in the exact streams"]
 ASSUMPTIONS = ["RMSD tolerance of the oracle: 4e-6*scale plus the float32 conditioning term min(delta^2/g, 4*delta)/n on squared deviations (see _allowed_rmsd)",
-               "Kabsch optimality of the SVD-derived rotation is NOT proved; it is checked per output with tolerances",
+               "Kabsch optimality is proved over Q GIVEN an SVD (IsSVD contract); that np.linalg.svd meets the contract is not proved, it is checked per output with tolerances",
                "float rounding is not modelled: theorems are over exact rationals / commutative rings",
                "superimpose_homologs: the per-chain sequence alignment (C08) is an input of the model (taken from the real code on single chain pairs); the backbone filter runs for real on a synthetic CCD (fixtures/C16/components.bcif)"]
-LEVEL_TEXT = ("partial: Lean theorems (all inputs) for the 4x4 matrix form = apply over any commutative ring, model-wise "
+LEVEL_TEXT = ("partial: the SVD computation itself (LAPACK, float32) is external; GIVEN an SVD (explicit contract IsSVD: "
+              "orthogonal factors, H = V·diag(s)·W, s1 >= s2 >= s3 >= 0) the optimality is a theorem: the sum of squared "
+              "deviations is spread - 2·trace(R^T H) (C16_rmsd_trace), trace(M·diag s) <= s1+s2+s3 for orthogonal M and "
+              "<= s1+s2-s3 when det M = -1 (C16_trace_bound, C16_trace_bound_reflected), hence the matrix the code "
+              "returns (last column of V flipped iff det V·det W < 0) maximises the trace over all proper rotations in "
+              "both cases and, with the centroid translation, no proper rigid-body placement has a lower RMSD "
+              "(C16_kabsch_optimal, C16_kabsch_optimal_superimpose for the model's superimpose). Further Lean theorems "
+              "(all inputs): 4x4 matrix form = apply over any commutative ring, model-wise "
               "action on stacks incl. broadcasting and error branches, reproduction of the fitted coordinates, "
               "reflection correction yields an orthogonal matrix of determinant +1 for every orthogonal SVD output, "
               "centroid-to-centroid translation is optimal for any rotation (over Q), anchor set of the outlier/"
               "homolog variants is a shrinking sublist never below min_anchors and the returned transformation is "
               "the fit on exactly the returned anchors, the anchor pairs _find_matching_anchors returns for chain k are "
               "its local alignment columns offset by the cumulative lengths of the respective structure's previous "
-              "chains and stay inside both structures (C16_homolog_offsets, _in_range). NOT proved: optimality of the rotation (SVD external) — "
-              "validated per output by the oracle with tolerances.")
+              "chains and stay inside both structures (C16_homolog_offsets, _in_range). NOT proved: that LAPACK's "
+              "output meets the IsSVD contract, and anything about float rounding — both validated per output by the "
+              "oracle with tolerances (independent quaternion optimum, perturbations, certificate).")
 LEVEL_NOTE = "LAPACK SVD, float rounding, numpy broadcasting/quantile semantics are modelled or validated, not verified"
-TECHNIQUE = "Lean 4 proof (ring identities, completing the square, loop invariant by induction on iterations) + exact-rational correspondence + tolerance oracle"
+TECHNIQUE = "Lean 4 proof (ring identities, completing the square, Kabsch optimality from an SVD contract via trace bounds, loop invariant by induction on iterations) + exact-rational correspondence + tolerance oracle"
 
 _S = None
 
@@ -370,6 +378,57 @@ class _NpShim:
     def __getattr__(self, name):
         import numpy as np
         return getattr(np, name)
+
+
+class _SpyLinalg:
+    """np.linalg with a recording `svd` (the real LAPACK call; inputs and outputs are copied at call time,
+    because `_get_rotation_matrices` flips a column of `v` in place afterwards)."""
+    def __init__(self, log):
+        self._log = log
+
+    def svd(self, a, *args, **kw):
+        import numpy as np
+        r = np.linalg.svd(a, *args, **kw)
+        self._log.append((np.array(a, copy=True), np.array(r[0], copy=True), np.array(r[1], copy=True), np.array(r[2], copy=True)))
+        return r
+
+    def __getattr__(self, name):
+        import numpy as np
+        return getattr(np.linalg, name)
+
+
+class _SpyNp:
+    def __init__(self, log):
+        self.linalg = _SpyLinalg(log)
+
+    def __getattr__(self, name):
+        import numpy as np
+        return getattr(np, name)
+
+
+def _check_svd_contract(log, v):
+    """The assumption of the Lean theorem `C16_kabsch_optimal` (`IsSVD`), checked on what LAPACK actually returned:
+    orthogonal factors, H = V·diag(s)·W, singular values descending and non-negative (float32 tolerances)."""
+    import numpy as np
+    for H, V, sv, W in log:
+        H, V, sv, W = (np.asarray(x, dtype=np.float64) for x in (H, V, sv, W))
+        for k in range(H.shape[0]):
+            scale = max(1e-30, float(np.abs(H[k]).max()))
+            eye = np.eye(3)
+            if not (np.all(np.isfinite(V[k])) and np.all(np.isfinite(W[k])) and np.all(np.isfinite(sv[k]))):
+                v.append(("C16/svd-contract/non-finite", f"model {k}: svd returned non-finite values for H={H[k].tolist()}"))
+                return
+            dev = max(np.abs(V[k].T @ V[k] - eye).max(), np.abs(W[k] @ W[k].T - eye).max())
+            if dev > 2e-5:
+                v.append(("C16/svd-contract/factors-not-orthogonal", f"model {k}: max deviation {dev:.3g}"))
+                return
+            rec = np.abs((V[k] * sv[k]) @ W[k] - H[k]).max()
+            if rec > 2e-5 * scale:
+                v.append(("C16/svd-contract/does-not-reconstruct", f"model {k}: |V·diag(s)·W - H| = {rec:.3g} (scale {scale:.3g})"))
+                return
+            if not (sv[k][0] >= sv[k][1] >= sv[k][2] >= 0):
+                v.append(("C16/svd-contract/singular-values-not-sorted", f"model {k}: s = {sv[k].tolist()}"))
+                return
 
 
 @contextlib.contextmanager
@@ -1107,8 +1166,10 @@ def _oracle_fit(case):
     f3 = fixed if fixed.ndim == 3 else fixed[None]
     m3 = mobile if mobile.ndim == 3 else mobile[None]
     expect_reject = m3.shape[0] == 1 and f3.shape[0] > 1
+    svd_log = []
     try:
-        fitted, T = S.superimpose(F, M, atom_mask=mask)
+        with _patched(np=_SpyNp(svd_log)):
+            fitted, T = S.superimpose(F, M, atom_mask=mask)
     except IndexError as e:
         if expect_reject:
             return v          # one mobile model onto several fixed models: refused loudly (documented in notes)
@@ -1120,6 +1181,11 @@ def _oracle_fit(case):
     fc = fitted if isinstance(fitted, np.ndarray) else fitted.coord
     if type(fitted) is not type(M) or fc.shape != mobile.shape:
         v.append(("C16/superimpose/result-shape", f"fitted {type(fitted).__name__}{fc.shape} for mobile {type(M).__name__}{mobile.shape}"))
+        return v
+    # (0) the external SVD met the contract the optimality theorem assumes
+    # (if a rewrite obtains its SVD differently nothing is recorded and only the output checks below apply)
+    _check_svd_contract(svd_log, v)
+    if v:
         return v
     # (1) proper rotation
     R = T.rotation.astype(np.float64)
